@@ -14,8 +14,6 @@ limitations under the License.
 package db
 
 import (
-	"bytes"
-
 	"github.com/golang/glog"
 	"github.com/miekg/dns"
 )
@@ -84,8 +82,16 @@ func AdditionalSectionForRecords(r Reader, a *dns.Msg, loc *Location, qclass uin
 				return nil
 			}
 
-			// owner keys are stored lower-cased, targets keep the case of the data file
-			err = r.ForEachResourceRecord(bytes.ToLower(packedName[:offset]), loc, parseRecord)
+			// owner keys are stored lower-cased, targets keep the case of the data file.
+			// DNS case folding is ASCII only: bytes.ToLower would rewrite bytes >= 0x80
+			// (invalid UTF-8 becomes U+FFFD) and break the packed name.
+			target := packedName[:offset]
+			for i, c := range target {
+				if 'A' <= c && c <= 'Z' {
+					target[i] = c + ('a' - 'A')
+				}
+			}
+			err = r.ForEachResourceRecord(target, loc, parseRecord)
 			if err != nil {
 				glog.Errorf("Failed at parse records %v", err)
 			}
